@@ -183,9 +183,13 @@ func runProp(r *chk.Run, prop string) {
 // scalee1.go) as a sub-run and files what it found under this run.
 func scaleHalf(r *chk.Run, prop string) {
 	bin := os.Getenv("VERIF_SCALE_BIN")
-	if bin == "" || r.Violated() {
+	if bin == "" {
 		return
 	}
+	// (also when the exploration has candidates: state that the library keeps
+	// outside the Streamer survives from one execution of a worker process to the
+	// next, a candidate found that way does not reproduce in a fresh process; the
+	// two-stream executions of the native half find the same defect deterministically)
 	f, err := os.CreateTemp("", "verif-sub-*.json")
 	if err != nil {
 		chk.Fatalf("scale half: %v", err)
